@@ -28,6 +28,18 @@ def _to_literal(value):
         return value
 
 
+def _get_value_byte_size(member):
+    """Byte size of the value held by a (non-array) member, without optional flag."""
+    node = member
+    while getattr(node, 'definition', None):
+        node = node.definition
+    if isinstance(node, model.Enum):
+        return model.ENUM_SIZE
+    if isinstance(node, (model.Struct, model.Union)):
+        return node.byte_size
+    return model.BUILTIN_SIZES[node.type_name]
+
+
 class _Padder(object):
     PADDINGS = (
         (1, 'uint8_t'),
@@ -121,7 +133,11 @@ class _HppDefinitionsTranslator(TranslatorBase):
             else:
                 field = '{0} {1};\n'.format(typename, member.name)
             if member.optional:
-                field = 'prophy::bool_t has_{0};\n'.format(member.name) + field
+                flag = 'prophy::bool_t has_{0};\n'.format(member.name)
+                flag_padding = member.byte_size - _get_value_byte_size(member) - model.DISC_SIZE
+                if flag_padding > 0:
+                    flag += padder.generate_padding(flag_padding)
+                field = flag + field
             if member.padding is not None and member.padding > 0:
                 field += padder.generate_padding(member.padding)
             return field
